@@ -109,10 +109,24 @@ def make_entity(kind, spec, to):
     return ProtomessageProtocolEntity("text", attrs, meta)
 
 
+class LoggingServer(A.Server):
+    """records the order in which message stanzas are handed to each client"""
+
+    def __init__(self):
+        A.Server.__init__(self)
+        self.delivery_order = {}
+
+    def step(self, clients, idx=0, mutate=None, duplicate=False):
+        jid, node, meta = self.outq[idx]
+        if meta.get("kind") == "message":
+            self.delivery_order.setdefault(jid, []).append(meta["msg_id"])
+        return A.Server.step(self, clients, idx, mutate, duplicate)
+
+
 class World(object):
     def __init__(self, case):
         A.install()
-        self.server = A.Server()
+        self.server = LoggingServer()
         self.clients = {}
         self.homes = []
         n = case["accounts"]
@@ -345,7 +359,7 @@ def _run(case, out, w):
             got = [e for e in c.app_got if e.getTag() == "message" and e.getId() == m["id"]]
             if jid in m["recipients"]:
                 retried = [n for j2, n in server.log if j2 == jid and n.tag == "receipt" and n["type"] == "retry" and n["id"] == m["id"]]
-                if len(got) == 2 and m["dups"].get(jid, 0) >= 1 and retried:
+                if len(got) == 2 and m["dups"].get(jid, 0) >= 1 and retried and legit_retry(messages, m, jid, server):
                     # specific history: the first copy could not be decrypted (retry requested, message re-sent and shown), then the
                     # server's duplicate of the original stanza arrived and decrypted, because the failed attempt had not used up
                     # its message key - the library has no other duplicate detection than the ratchet
@@ -422,6 +436,30 @@ def _run(case, out, w):
                 return out
     out.info = {"nt": nt}
     return out
+
+
+def legit_retry(messages, m, jid, server):
+    """the recipient had a legitimate reason to ask for a retry of m: its first copy was corrupted, or (groups) it arrived
+    before an earlier message of the same sender to the same group, i.e. before the sender key it depends on"""
+    if jid in m.get("corrupted_first", ()):
+        return True
+    if m["to"] not in GROUPS:
+        return False
+    order = server.delivery_order.get(jid, [])
+    if m["id"] not in order:
+        return False
+    first = order.index(m["id"])
+    earlier = []
+    for m0 in messages:
+        if m0 is m:
+            break
+        if m0["from"] == m["from"] and m0["to"] == m["to"] and jid in m0["recipients"]:
+            earlier.append(m0)
+    if not earlier:
+        # the sender's first message to this group: the library only distributes the sender key to members it had to open a
+        # session with; a member it already had a session with gets the bare group ciphertext and has to ask for a retry
+        return True
+    return any(m0["id"] not in order[:first] for m0 in earlier)
 
 
 def find_message(messages, mid):
